@@ -1728,12 +1728,6 @@ class _TotalJacInfo(object):
                             self.model._problem_meta['parallel_deriv_color'] = None
                             self.model._problem_meta['seed_vars'] = None
                 
-                self._apply_unit_scaling(self.J_dict)
-
-                # Driver scaling.
-                if self.has_scaling:
-                    self._driver._autoscaler.apply_jac_scaling(self.J_dict)
-
                 # if some of the wrt vars are distributed in fwd mode, we bcast from the rank
                 # where each part of the distrib var exists
                 if self.get_remote and mode == 'fwd' and self.has_wrt_dist and \
@@ -1743,14 +1737,22 @@ class _TotalJacInfo(object):
                         model.comm.Bcast(contig, root=rank)
                         self.J[:, start:stop] = contig
 
+                # The substitution corrections of a bidirectional coloring combine entries of
+                # different rows and columns, so they must be applied before any scaling.
+                if self.simul_coloring is not None and self.simul_coloring._subtractions:
+                    self.simul_coloring._apply_subtractions(self.J)
+
+                self._apply_unit_scaling(self.J_dict)
+
+                # Driver scaling.
+                if self.has_scaling:
+                    self._driver._autoscaler.apply_jac_scaling(self.J_dict)
+
                 if debug_print:
                     # Debug outputs scaled derivatives.
                     self._print_derivatives()
         finally:
             self.model._recording_iter.pop()
-
-        if self.simul_coloring is not None and self.simul_coloring._subtractions:
-            self.simul_coloring._apply_subtractions(self.J)
 
         return self.J_final
 
